@@ -39,7 +39,7 @@ def decodeByte (b : Bytes) : Res (UInt8 × Nat) :=
   let (t, _) := decodeType b
   if t ≠ tByte then .err .type 0 else
   if b.length < 2 then .err .data 0 else
-  .ok (b.getD (b.length - 2) 0, 2)
+  .ok ((lastN 2 b).headD 0, 2)
 
 -- Int
 
